@@ -86,6 +86,7 @@ struct FnVisitor<'s> {
     pending_let: Option<String>,
     panics: Vec<PanicSite>,
     loops: Vec<(usize, String, usize)>,
+    calls: Vec<String>,
 }
 
 impl<'ast, 's> Visit<'ast> for FnVisitor<'s> {
@@ -138,8 +139,17 @@ impl<'ast, 's> Visit<'ast> for FnVisitor<'s> {
         scan_tokens_for_panics(m.tokens.clone(), &mut self.panics);
         visit::visit_macro(self, m);
     }
+    fn visit_expr_call(&mut self, e: &'ast syn::ExprCall) {
+        if let syn::Expr::Path(p) = &*e.func {
+            if let Some(seg) = p.path.segments.last() {
+                self.calls.push(seg.ident.to_string());
+            }
+        }
+        visit::visit_expr_call(self, e);
+    }
     fn visit_expr_method_call(&mut self, e: &'ast syn::ExprMethodCall) {
         let n = e.method.to_string();
+        self.calls.push(n.clone());
         if n == "unwrap" || n == "expect" {
             self.panics.push(PanicSite { what: format!(".{}()", n), line: e.method.span().start().line });
         }
@@ -248,7 +258,7 @@ fn emit_fn(
     impl_header: Option<(usize, usize)>,
     impl_extra: &str,
 ) {
-    let mut v = FnVisitor { src, closures: vec![], pending_let: None, panics: vec![], loops: vec![] };
+    let mut v = FnVisitor { src, closures: vec![], pending_let: None, panics: vec![], loops: vec![], calls: vec![] };
     v.visit_block(block);
     out.item_begin();
     let start = src.start(whole);
@@ -326,6 +336,16 @@ fn emit_fn(
             out.s.push(',');
         }
         write!(out.s, "{{\"what\":\"{}\",\"line\":{}}}", esc(&p.what), p.line).unwrap();
+    }
+    out.s.push_str("],\"calls\":[");
+    let mut cs = v.calls.clone();
+    cs.sort();
+    cs.dedup();
+    for (i, c) in cs.iter().enumerate() {
+        if i > 0 {
+            out.s.push(',');
+        }
+        write!(out.s, "\"{}\"", esc(c)).unwrap();
     }
     out.s.push_str("],\"loops\":[");
     for (i, p) in v.loops.iter().enumerate() {
